@@ -3,7 +3,7 @@
 # Confirms a seeded change (patch compiles, suite passes, demo fails with / passes without), then runs the checks
 # of /verif against /repo with the patch applied, and restores /repo.
 ID=$1; DEMO=$2; PROPS=${3:-all}
-P=/tmp/seed/$ID-patch.diff; D=/tmp/seed/$ID-demo.diff
+SD=${SEEDDIR:-/tmp/seed}; P=$SD/$ID-patch.diff; D=$SD/$ID-demo.diff
 W=/var/tmp/seedcheck-$ID; T=/var/tmp/seedcheck-target
 rm -rf $W; git -C /repo worktree prune; git -C /repo worktree add --detach $W HEAD >/dev/null 2>&1 || exit 3
 cd $W
